@@ -104,7 +104,7 @@ def gen_calls(tier, seed):
                 calls.append({"kind": "rs", "op": "PhaseShift", "p": [th], "k": k, "eps": eps, "label": labels[gi % 3], "kw": {}})
     # Solovay-Kitaev: arbitrary one-qubit targets
     sk_eps = [1e-1, 1e-2] if quick else [1e-1, 3e-2, 1e-2]
-    sk_targets = [("RZ", [PI / 3], None), ("RZ", [PI / 4], 1), ("RZ", [PI], 4), ("RX", [0.7], None), ("RY", [2.1], None), ("PhaseShift", [5.0], None),
+    sk_targets = [("RZ", [PI / 3], None), ("RZ", [PI / 4], 1), ("RZ", [PI], 4), ("RY", [2.1], None), ("RX", [0.7], None), ("PhaseShift", [5.0], None),
                   ("Rot", [0.3, 1.1, -2.0], None), ("RZ", [0.0], 0), ("RZ", [1e-3], None), ("RZ", [2 * PI - 1e-3], None)]
     if not quick:
         sk_targets += [("RZ", [rng.uniform(-4 * PI, 4 * PI)], None) for _ in range(10)] + [("RX", [rng.uniform(0, 4 * PI)], None) for _ in range(4)] + \
